@@ -119,31 +119,42 @@ pub(crate) static mut T_REAL_KEYS: [&str; 12] = [""; 12];
 pub(crate) static mut T_REAL_VALS: [f64; 12] = [0.0; 12];
 pub(crate) static mut T_REAL_N: usize = 0;
 pub(crate) static mut T_SER_KEYS: [&str; TS] = [""; TS];
-pub(crate) static mut T_SER_VALS: [[f64; 8]; TS] = [[0.0; 8]; TS];
+pub(crate) static mut T_SER_VALS: [[f64; 12]; TS] = [[0.0; 12]; TS];
 pub(crate) static mut T_SER_LEN: [usize; TS] = [0; TS];
 pub(crate) static mut T_SER_N: usize = 0;
 pub(crate) static mut T_NAT_KEYS: [&str; TS] = [""; TS];
 pub(crate) static mut T_NAT_VALS: [usize; TS] = [0; TS];
 pub(crate) static mut T_NAT_N: usize = 0;
 
-pub(crate) fn t_flag(key: &'static str) {
+// Under cfg(verif_replay) (native replay of a counterexample: no stub is active) the same calls fill the REAL maps,
+// so the real accessors see exactly what the model checker's tables held.
+pub(crate) fn t_flag(p: &mut ParsedParameters, key: &'static str) {
+    #[cfg(verif_replay)]
+    p.boolean.insert(key);
+    let _ = p;
     unsafe {
         T_FLAG_KEYS[T_FLAG_N] = key;
         T_FLAG_N += 1;
     }
 }
-pub(crate) fn t_real(key: &'static str, v: f64) {
+pub(crate) fn t_real(p: &mut ParsedParameters, key: &'static str, v: f64) {
+    #[cfg(verif_replay)]
+    p.real.insert(key, v);
+    let _ = p;
     unsafe {
         T_REAL_KEYS[T_REAL_N] = key;
         T_REAL_VALS[T_REAL_N] = v;
         T_REAL_N += 1;
     }
 }
-pub(crate) fn t_series(key: &'static str, v: &[f64]) {
+pub(crate) fn t_series(p: &mut ParsedParameters, key: &'static str, v: &[f64]) {
+    #[cfg(verif_replay)]
+    p.series.insert(key, v.to_vec());
+    let _ = p;
     unsafe {
         T_SER_KEYS[T_SER_N] = key;
         let mut i = 0;
-        while i < v.len() && i < 8 {
+        while i < v.len() && i < 12 {
             T_SER_VALS[T_SER_N][i] = v[i];
             i += 1;
         }
@@ -151,7 +162,10 @@ pub(crate) fn t_series(key: &'static str, v: &[f64]) {
         T_SER_N += 1;
     }
 }
-pub(crate) fn t_natural(key: &'static str, v: usize) {
+pub(crate) fn t_natural(p: &mut ParsedParameters, key: &'static str, v: usize) {
+    #[cfg(verif_replay)]
+    p.natural.insert(key, v);
+    let _ = p;
     unsafe {
         T_NAT_KEYS[T_NAT_N] = key;
         T_NAT_VALS[T_NAT_N] = v;
